@@ -3,6 +3,8 @@
 package cl
 
 import (
+	"fmt"
+
 	"github.com/ohler55/slip"
 )
 
@@ -86,6 +88,10 @@ func (f *MakeArray) Call(s *slip.Scope, args slip.List, depth int) slip.Object {
 	elementType := slip.TrueSymbol
 	switch ta := args[0].(type) {
 	case slip.Fixnum:
+		if ta < 0 || slip.ArrayMaxDimension < ta {
+			slip.TypePanic(s, depth, "dimensions", ta,
+				fmt.Sprintf("fixnum between 0 and %d", slip.ArrayMaxDimension))
+		}
 		dims = []int{int(ta)}
 	case slip.List:
 		for _, v := range ta {
